@@ -1,1 +1,37 @@
-//! verification hook (cfg pendulum_project_ntpd_rs_verif only)
+//! verification hook (cfg pendulum_project_ntpd_rs_verif only): read-only view of an NtpSource's private state
+use super::{NtpSource, ProtocolVersion};
+use crate::algorithm::SourceController;
+
+#[derive(Debug, Clone, PartialEq, Eq)]
+pub struct SourceState {
+    pub protocol_version: ProtocolVersion,
+    pub last_poll_interval: i8,
+    pub remote_min_poll_interval: i8,
+    pub reach: u8,
+    pub tries: usize,
+    pub have_deny_rstr_response: bool,
+    pub stratum: u8,
+    pub reference_id: u32,
+    pub pending: bool,
+    pub nts_cookies: Option<usize>,
+    pub bloom_complete: bool,
+}
+
+pub fn source_state<C: SourceController>(s: &NtpSource<C>) -> SourceState {
+    SourceState {
+        protocol_version: s.protocol_version,
+        last_poll_interval: s.last_poll_interval.as_log(),
+        remote_min_poll_interval: s.remote_min_poll_interval.as_log(),
+        reach: s.reach.0,
+        tries: s.tries,
+        have_deny_rstr_response: s.have_deny_rstr_response,
+        stratum: s.stratum,
+        reference_id: u32::from_be_bytes(s.reference_id.to_bytes()),
+        pending: s.current_request_identifier.is_some(),
+        nts_cookies: s.nts.as_ref().map(|n| n.cookies.len()),
+        bloom_complete: s.bloom_filter.full_filter().is_some(),
+    }
+}
+pub fn full_bloom<C: SourceController>(s: &NtpSource<C>) -> Option<Vec<u8>> {
+    s.bloom_filter.full_filter().map(|f| f.as_bytes().to_vec())
+}
